@@ -136,6 +136,24 @@ claim("C12",
       "exit variable on every cyclic path.",
       "Not decided: numeric time/allocation bounds, miekg's own parsing, unrecoverable runtime errors. miekg's one-question rule and lack of recover are trusted facts.")
 
+claim("C08",
+      "constant-table rules over the typed AST (alphabets, registry, codes), sibling agreement of Encode/Decode objects, substitution-map extraction on SSA, result-use rule",
+      "Decides the table-level facts of the selectable codecs: every alphabet constant given to a NewEncoding constructor and every data-indexed constant "
+      "table has radix-many pairwise distinct symbols, none a dot, backslash, space or control character; FromCode's registry lists every codec, codes are "
+      "distinct upper-case constants; table-driven codecs encode and decode with the same encoding object; Base85's substitutions cover the forbidden bytes "
+      "ascii85 can emit, land outside ascii85's alphabet and are inverted by Decode; the byte counts returned by ascii85.Encode/Decode cut the buffer. "
+      "This is the structural minority of the property.",
+      "Not decided (most of the property): round-trip equality and expansion bounds of the arithmetic/bit-packing codecs (Base128, Base192), library codecs' behaviour.")
+
+claim("C11",
+      "dominance and path-fact rules on Handshake, candidate/registry table comparison, byte-recurrence constant extraction, loop-progress analysis with linear-offset folding, alphabet case-fold injectivity",
+      "Decides the structural part of 'probe, then commit, and terminate': each commit step is dominated by its probe (fragment size receives the probe's result "
+      "on err==nil; version handshake only with a preset or successfully detected query type) and Handshake succeeds only after the mandatory steps returned nil; "
+      "every candidate codec is registered and every upstream candidate has a test pattern; the fragment-probe generator and checker use equal constants and both "
+      "ends use the single DownloadCodecCheck; every loop in Handshake's synchronous cone changes a loop-carried exit variable on every cyclic path; every codec "
+      "assigned to the upstream direction without a probe is injective under ASCII case folding.",
+      "Not decided: 'probe passed => data works on that path', 8-bit mangling, size limits, lost replies to a commit.")
+
 for pid in ["C01","C02","C03","C04","C05","C06","C07","C08","C09","C10","C11","C12","C13","C14","C15","C16","C17","C18"]:
     if pid not in P:
         na(pid, PENDING)
